@@ -8,9 +8,11 @@ import "strings"
 // evaluating each variable's DEFINE condition against the match so far and the WITHIN bound.
 
 type prow struct {
-	id int
-	v  int
-	ts int64 // normalised (ns for epoch-ms stamps, raw for small sequence numbers)
+	id  int
+	v   int
+	ts  int64 // normalised (ns for epoch-ms stamps, raw for small sequence numbers)
+	noV bool  // the row has no column v
+	w   int
 }
 
 type matcher struct {
@@ -47,9 +49,11 @@ func (m *matcher) cond(sym string, pos int) bool {
 	r := m.rows[pos]
 	switch d.Kind {
 	case "gt":
-		return r.v > d.C
+		return !r.noV && r.v > d.C
 	case "lt":
-		return r.v < d.C
+		return !r.noV && r.v < d.C
+	case "gtw":
+		return !r.noV && r.v > d.C && r.w == d.K
 	case "gtprev": // PREV on the first row of the match is NULL -> condition not satisfied
 		if pos == m.start {
 			return false
